@@ -282,12 +282,12 @@ def fitsCInt (t : DT) : Bool :=
 
 /-- lines 379-387 `other.replace(**repl)`: a `date` rejects time keywords (TypeError);
     C-int conversion (OverflowError), then the constructor's field validation (ValueError) -/
-def replaced (self : RD) (o : Temporal) (year month day : Int) : Py.R DT :=
-  if o.kind = .date ∧ hasAbsTime self then .error .TypeError
+def replaced (self : RD) (k : Kind) (o : DT) (year month day : Int) : Py.R DT :=
+  if k = .date ∧ hasAbsTime self then .error .TypeError
   else
     let t : DT := { y := year, m := month, d := day,
-                    hh := self.hour.getD o.t.hh, mm := self.minute.getD o.t.mm,
-                    ss := self.second.getD o.t.ss, us := self.microsecond.getD o.t.us }
+                    hh := self.hour.getD o.hh, mm := self.minute.getD o.mm,
+                    ss := self.second.getD o.ss, us := self.microsecond.getD o.us }
     if ¬ fitsCInt t then .error .OverflowError
     else if t.valid then .ok t else .error .ValueError
 
@@ -316,15 +316,18 @@ def applyWeekday (wd : Option (Int × Option Int)) (ret : DT) : Py.R DT :=
   | none => .ok ret
   | some (w, n) => ret.addDays (jumpDays w n ret.weekday)
 
+/-- lines 377-402 once year and month are known -/
+def applyTail (self : RD) (k : Kind) (o : DT) (year month : Int) : Py.R Temporal := do
+  let dim ← monthrange1 year month
+  let base ← replaced self k o year month (min dim (orInt self.day o.d))
+  let ret ← addDelta k base (deltaMicros self (daysWithLeap self year month))
+  let r ← applyWeekday self.weekday ret
+  pure { kind := k, t := r }
+
 /-- `self.__add__(other)` for a date / datetime operand (lines 362-402) -/
 def applyTo (self : RD) (other : Temporal) : Py.R Temporal := do
-  let o := promote self other
-  let ym ← ymCarry self o.t.y o.t.m
-  let dim ← monthrange1 ym.1 ym.2
-  let base ← replaced self o ym.1 ym.2 (min dim (orInt self.day o.t.d))
-  let ret ← addDelta o.kind base (deltaMicros self (daysWithLeap self ym.1 ym.2))
-  let r ← applyWeekday self.weekday ret
-  pure { kind := o.kind, t := r }
+  let ym ← ymCarry self (promote self other).t.y (promote self other).t.m
+  applyTail self (promote self other).kind (promote self other).t ym.1 ym.2
 
 /-- `other + self` -/
 def radd (self : RD) (other : Temporal) : Py.R Temporal := applyTo self other
